@@ -324,6 +324,8 @@ pub fn crop1_alphabet(n: u32) -> Vec<Crop1> {
     // integer origin, fractional size: truncating the size gives an integer destination size
     push(0.0, nf - 0.5);
     push(1.0, nf - 1.5);
+    // origin a hair below an integer, integer size: must NOT be treated as the integer box
+    push(1.0 - (2.0f64).powi(-30), nf - 1.0);
     // interior box with margins of about a third of the image on both sides
     if n >= 6 {
         push((n / 3) as f64, (n / 3) as f64);
